@@ -1,0 +1,48 @@
+//go:build verif
+
+package tokenizer
+
+import "github.com/ajitpratap0/GoSQLX/pkg/models"
+
+// Verification-only accessors for the lexical tables and rune classes of the tokenizer.
+
+// VerifKeywordTypes returns a copy of the single-word keyword table.
+func VerifKeywordTypes() map[string]models.TokenType {
+	m := make(map[string]models.TokenType, len(keywordTokenTypes))
+	for k, v := range keywordTokenTypes {
+		m[k] = v
+	}
+	return m
+}
+
+// VerifCompoundKeywordTypes returns a copy of the two-word keyword table.
+func VerifCompoundKeywordTypes() map[string]models.TokenType {
+	m := make(map[string]models.TokenType, len(compoundKeywordTypes))
+	for k, v := range compoundKeywordTypes {
+		m[k] = v
+	}
+	return m
+}
+
+// VerifCompoundKeywordStarts returns the words that may start a two-word keyword.
+func VerifCompoundKeywordStarts() []string {
+	var out []string
+	for k, v := range compoundKeywordStarts {
+		if v {
+			out = append(out, k)
+		}
+	}
+	return out
+}
+
+// VerifIsIdentifierStart exposes isIdentifierStart.
+func VerifIsIdentifierStart(r rune) bool { return isIdentifierStart(r) }
+
+// VerifIsIdentifierChar exposes isIdentifierChar.
+func VerifIsIdentifierChar(r rune) bool { return isIdentifierChar(r) }
+
+// VerifIsUnicodeQuote exposes isUnicodeQuote.
+func VerifIsUnicodeQuote(r rune) bool { return isUnicodeQuote(r) }
+
+// VerifNormalizeQuote exposes normalizeQuote.
+func VerifNormalizeQuote(r rune) rune { return normalizeQuote(r) }
